@@ -50,6 +50,8 @@ PID = 'C19'
 
 FASTA = {'A_2010': 'ACGTACGTACGTAA', 'B_2011': 'ACGTACGAACGAAC', 'C_2012': 'ACTTACGAAGGATC'}
 NEWICK = '((A_2010:0.1,B_2011:0.2):0.1,C_2012:0.3);'
+# branch lengths consistent with the sampling dates (tip heights 2, 1, 0): internal node heights 2.5 and 4.0
+NEWICK_TIMED = '((A_2010:0.5,B_2011:1.5):1.5,C_2012:4.0);'
 CLI_EXE = '/venv/bin/torchtree-cli'
 SOLVERS = tuple(os.environ.get('C19_SOLVERS', 'z3new,z3,cvc5').split(','))
 
@@ -61,6 +63,8 @@ def make_data(tmp):
             f.write(f'>{k}\n{v}\n')
     with open(os.path.join(tmp, 't.nwk'), 'w') as f:
         f.write(NEWICK + '\n')
+    with open(os.path.join(tmp, 't2.nwk'), 'w') as f:
+        f.write(NEWICK_TIMED + '\n')
 
 
 def register_all():
@@ -71,14 +75,20 @@ def register_all():
 
 
 def argv_of(sub, groups, tmp):
-    a = [sub, '-i', os.path.join(tmp, 'a.fa'), '-t', os.path.join(tmp, 't.nwk'), '--stem', os.path.join(tmp, 'out')]
+    """groups: tuples of option tokens; the pseudo group ('@tree', file) selects the input tree file."""
+    tree = 't.nwk'
     for g in groups:
-        a += list(g)
+        if g[0] == '@tree':
+            tree = g[1]
+    a = [sub, '-i', os.path.join(tmp, 'a.fa'), '-t', os.path.join(tmp, tree), '--stem', os.path.join(tmp, 'out')]
+    for g in groups:
+        if g[0] != '@tree':
+            a += list(g)
     return a
 
 
 def opts_str(groups):
-    return ' '.join(' '.join(g) for g in groups) or '(defaults)'
+    return ' '.join(('-t ' + g[1]) if g[0] == '@tree' else ' '.join(g) for g in groups) or '(defaults)'
 
 
 def run_cli(argv):
@@ -735,19 +745,64 @@ def minimise(sub, groups, tmp, stage, exc):
     return cur_g
 
 
-def check_initial_values(dic, wants, label, tr, sub, groups):
-    for pid, want in wants:
-        if pid not in dic:
-            tr.violation(f'cli:{sub}:initial-value:{pid}:absent', f'{label}: requested initial value for {pid} but the object does not exist',
-                         {'sub': sub, 'groups': [list(g) for g in groups], 'kind': 'initial'})
+def regression_oracle():
+    """Root-to-tip regression in exact double arithmetic, written independently of tree_regression.py:
+    (rate, root height) for the first input tree and the dates in the taxon names."""
+    dates = {'A_2010': 2010.0, 'B_2011': 2011.0, 'C_2012': 2012.0}
+    dist = {'A_2010': 0.1 + 0.1, 'B_2011': 0.2 + 0.1, 'C_2012': 0.3}
+    ts = [dates[k] for k in dates]
+    ds = [dist[k] for k in dates]
+    n = len(ts)
+    mt, md = sum(ts) / n, sum(ds) / n
+    slope = sum((t - mt) * (x - md) for t, x in zip(ts, ds)) / sum((t - mt) ** 2 for t in ts)
+    root_date = mt - md / slope
+    return slope, max(ts) - root_date
+
+
+def read_initial(dic, reader):
+    """The constrained value at the initial point, read back from the loaded object graph."""
+    if reader.startswith('param:'):
+        return dic[reader[6:]].tensor.detach().to(torch.float64).reshape(-1)
+    tree = dic['tree']
+    if reader == 'root_height':
+        return tree.node_heights.detach().to(torch.float64).reshape(-1)[-1:]
+    if reader == 'node_heights':
+        return tree.node_heights.detach().to(torch.float64).reshape(-1)[tree.taxa_count:]
+    if reader == 'blens_sorted':
+        return torch.sort(tree.branch_lengths().detach().to(torch.float64).reshape(-1))[0]
+    raise KeyError(reader)
+
+
+def check_initial_values(dic, wants, label, tr, sub, groups, tmp):
+    """wants: (option, reader, expected[, rtol[, kind]]); expected is a list of numbers or, for the reader
+    'root_height' with kind 'same-as', the option groups of a reference configuration whose root height must agree."""
+    rp = {'sub': sub, 'groups': [list(g) for g in groups], 'kind': 'initial', 'wants': [list(w) for w in wants]}
+    for w in wants:
+        option, reader, expected = w[0], w[1], w[2]
+        rtol = w[3] if len(w) > 3 else 2e-6  # the CLI computes the unconstrained values in float32
+        kind = w[4] if len(w) > 4 else 'not-honoured'
+        sig = f'cli:{sub}:initial-value-{kind}:{option}'
+        try:
+            got = read_initial(dic, reader)
+        except Exception as e:
+            tr.violation(sig, f'torchtree-cli {label}: {option}: the requested value cannot be read back ({reader}): {type(e).__name__}: {e}', rp)
             continue
-        got = dic[pid].tensor.detach().to(torch.float64).reshape(-1)
-        w = torch.tensor(want, dtype=torch.float64).reshape(-1)
-        w = w.expand_as(got) if w.numel() == 1 else w
-        # the CLI computes the unconstrained values in float32: equality up to single precision
-        if got.shape != w.shape or not torch.allclose(got, w, rtol=2e-6, atol=1e-9):
-            tr.violation(f'cli:{sub}:initial-value:{pid}', f'{label}: requested {pid} = {want} but the loaded constrained value is {got.tolist()}',
-                         {'sub': sub, 'groups': [list(g) for g in groups], 'kind': 'initial'})
+        how = ''
+        if expected and isinstance(expected[0], (tuple, list)):
+            # relational: the value an option asks for must not depend on the tree prior family
+            ref_groups = tuple(tuple(g) for g in expected)
+            js2, rej = run_cli(argv_of(sub, ref_groups, tmp))
+            if js2 is None:
+                tr.inconc(f'{label}: reference configuration {opts_str(ref_groups)} rejected ({rej})')
+                continue
+            want = read_initial(load_objects(js2), reader)
+            how = f' (value obtained with the reference configuration "{opts_str(ref_groups)}")'
+        else:
+            want = torch.tensor(expected, dtype=torch.float64).reshape(-1)
+            want = want.expand_as(got) if want.numel() == 1 else want
+        if got.shape != want.shape or not torch.allclose(got, want, rtol=rtol, atol=1e-9):
+            tr.violation(sig, f'torchtree-cli {label}: {option} asks for {reader.replace("param:", "")} = {want.tolist()}{how} but the '
+                              f'loaded object graph has {got.tolist()} at the initial point', rp)
 
 
 def run_config(task, tr):
@@ -789,6 +844,18 @@ def run_config(task, tr):
         json.dump(js, f)
     plan = make_plan(js)
     # ---------------------------------------------------------------- (1) concrete by-products
+    if wants:
+        # values written in the file (for ADVI they parameterise the variational factors' means); read before anything
+        # is evaluated so that a family whose density cannot be evaluated still has its initial values checked
+        try:
+            loaded = load_objects(js)
+        except Exception:
+            loaded = None  # reported as a load failure below
+        if loaded is not None:
+            check_initial_values(loaded, wants, label, tr, sub, groups, tmp)
+    if solver == 'values':
+        tr.notes.append(f'{label}: initial values only (density of this family is outside C19: see C08)')
+        return
     stage, exc, msg, dic = concrete_stage(js, plan)
     if stage is not None:
         mg = minimise(sub, groups, tmp, stage, exc)
@@ -800,9 +867,6 @@ def run_config(task, tr):
     if plan['handed'] is None:
         tr.notes.append(f'{label}: no sampler/optimiser is emitted (nothing is handed a density); loading only')
         return
-    if wants:
-        # (values written in the file; for ADVI they parameterise the variational factors' means)
-        check_initial_values(load_objects(js), wants, label, tr, sub, groups)
     if plan['moved'] is not None and sorted(plan['moved']) != sorted(plan['base']):
         extra = sorted(set(plan['moved']) - set(plan['base']))
         lack = sorted(set(plan['base']) - set(plan['moved']))
@@ -1171,12 +1235,84 @@ def init_configs(subs):
         out.append((sub, groups_for('HKY', 1, False, 'strict', 'ratio', 'constant',
                                     (('--rate_init', '0.002'), ('--root_height_init', '5.0'), ('--coalescent_init', '7.5'),
                                      ('-f', '0.1,0.2,0.3,0.4'))),
-                    (('branchmodel.rate', [0.002]), ('tree.root_height', [5.0]), ('coalescent.theta', [7.5]),
-                     ('substmodel.frequencies', [0.1, 0.2, 0.3, 0.4]))))
+                    (('--rate_init', 'param:branchmodel.rate', [0.002]), ('--root_height_init', 'root_height', [5.0]),
+                     ('--coalescent_init', 'param:coalescent.theta', [7.5]),
+                     ('-f', 'param:substmodel.frequencies', [0.1, 0.2, 0.3, 0.4]))))
         out.append((sub, groups_for('JC69', 1, False, None, 'ratio', None, (('--brlens_init', '0.05'),)),
-                    (('tree.blens', [0.05]),)))
+                    (('--brlens_init', 'param:tree.blens', [0.05]),)))
         out.append((sub, groups_for('JC69', 1, False, 'strict', 'shift', 'constant', (('--rate', '0.003'),)),
-                    (('branchmodel.rate', [0.003]),)))
+                    (('--rate', 'param:branchmodel.rate', [0.003]),)))
+    return out
+
+
+# tree-prior families; those with numeric options of their own (--grid/--cutoff) first
+FAMILIES = {
+    'skygrid': ('--coalescent', 'skygrid', '--grid', '3', '--cutoff', '5.0'),
+    'skyglide': ('--coalescent', 'skyglide', '--grid', '3', '--cutoff', '5.0'),
+    'piecewise-constant': ('--coalescent', 'piecewise-constant', '--grid', '3', '--cutoff', '5.0'),
+    'piecewise-linear': ('--coalescent', 'piecewise-linear', '--grid', '3', '--cutoff', '5.0'),
+    'piecewise-exponential': ('--coalescent', 'piecewise-exponential', '--grid', '3', '--cutoff', '5.0'),
+    'bdsk': ('--birth-death', 'bdsk', '--grid', '3'),
+    'bd-constant': ('--birth-death', 'constant'),
+    'constant': ('--coalescent', 'constant'),
+    'exponential': ('--coalescent', 'exponential'),
+    'skyride': ('--coalescent', 'skyride'),
+}
+
+
+def initial_value_options(family, heights, full):
+    """(option groups, wants) for every initial-value option the CLI documents, to be combined with one family."""
+    ref = lambda extra: tuple(groups_for('HKY', 1, False, 'strict', heights, 'constant')) + tuple(extra)  # noqa
+    opts = [
+        ((('--root_height_init', '7.5'),), (('--root_height_init', 'root_height', [7.5]),)),
+        ((('--root_height_init', '3.5'),), (('--root_height_init', 'root_height', [3.5]),)),
+        ((('--rate_init', '0.002'),), (('--rate_init', 'param:branchmodel.rate', [0.002]),)),
+        ((('--rate', '0.003'),), (('--rate', 'param:branchmodel.rate', [0.003]),)),
+        ((('-f', '0.1,0.2,0.3,0.4'),), (('-f', 'param:substmodel.frequencies', [0.1, 0.2, 0.3, 0.4]),)),
+        ((('--heights_init', 'tree'), ('@tree', 't2.nwk')), (('--heights_init tree', 'node_heights', [2.5, 4.0], 1e-5),)),
+        # the regression's root height must be the one obtained with any other tree prior (constant coalescent)
+        ((('--heights_init', 'regression'),),
+         (('--heights_init regression', 'root_height', ref((('--heights_init', 'regression'),)), 1e-6),)),
+        ((('--root_height_init', '7.5'), ('--rate_init', '0.002')),
+         (('--root_height_init', 'root_height', [7.5]), ('--rate_init', 'param:branchmodel.rate', [0.002]))),
+    ]
+    if not family.startswith('bd'):
+        opts.append(((('--coalescent_init', '7.5'),), (('--coalescent_init', 'param:coalescent.theta', [7.5]),)))
+        opts.append(((('--coalescent_init', '7.5'), ('--root_height_init', '7.5')),
+                     (('--coalescent_init', 'param:coalescent.theta', [7.5]), ('--root_height_init', 'root_height', [7.5]))))
+    if full:
+        rate, height = regression_oracle()
+        # absolute versions against the independent double-precision regression
+        opts.append(((('--rate_init', 'regression'),), (('--rate_init regression', 'param:branchmodel.rate', [rate], 1e-3),)))
+        opts.append(((('--heights_init', 'regression'),),
+                     (('--heights_init regression', 'root_height', [height], 1e-3, 'inaccurate'),
+                      ('--heights_init regression [rate]', 'param:branchmodel.rate', [rate], 1e-3, 'inaccurate'))))
+    return opts
+
+
+def pairwise_init_configs(subs, full):
+    """Every initial-value option together with every tree-prior family (pairwise), both node-height
+    parameterisations.  Concrete only (the solver clause is sized for the core grid)."""
+    out = []
+    if not full:
+        picks = [('hmc', 'skygrid', 'ratio', 0), ('advi', 'skyglide', 'ratio', 6), ('mcmc', 'piecewise-constant', 'shift', 0),
+                 ('map', 'skygrid', 'ratio', 5), ('hmc', 'bdsk', 'ratio', 1), ('advi', 'piecewise-linear', 'shift', 8),
+                 ('mcmc', 'skygrid', 'ratio', 7), ('hmc', 'piecewise-exponential', 'ratio', 9), ('advi', 'skygrid', 'shift', 6),
+                 ('map', 'skyglide', 'ratio', 2)]
+        for sub, fam, heights, k in picks:
+            og, wants = initial_value_options(fam, heights, False)[k]
+            base = groups_for('HKY', 1, False, 'strict', heights, None) + (FAMILIES[fam],)
+            out.append((sub, base + tuple(og), wants, 'values' if fam == 'piecewise-exponential' else False))
+        return out
+    for sub in subs:
+        for fam, fopts in FAMILIES.items():
+            for heights in ('ratio', 'shift'):
+                for og, wants in initial_value_options(fam, heights, True):
+                    base = groups_for('HKY', 1, False, 'strict', heights, None) + (fopts,)
+                    out.append((sub, base + tuple(og), wants, 'values' if fam == 'piecewise-exponential' else False))
+        for pr in ('exponential', 'gammadir'):
+            out.append((sub, groups_for('HKY', 1, False, None, 'ratio', None, (('--brlenspr', pr), ('--brlens_init', '0.05'))),
+                        (('--brlens_init', 'param:tree.blens', [0.05]),), False))
     return out
 
 
@@ -1250,6 +1386,8 @@ def tasks_for(tier, tmp):
         cfgs = full_grid() + init_configs(SUBS) + option_configs(SUBS)
         exe = [(s, groups_for('HKY', 4, True, 'strict', 'ratio', 'skygrid')) for s in SUBS]
     ts = [('cfg', sub, groups, wants, tmp, True) for sub, groups, wants in cfgs]
+    if os.environ.get('C19_ONLY') != 'options':
+        ts += [('cfg', sub, groups, wants, tmp, mode) for sub, groups, wants, mode in pairwise_init_configs(SUBS, tier != 'quick')]
     ts += [('exe', sub, groups, tmp) for sub, groups in exe]
     return ts
 
@@ -1287,7 +1425,10 @@ def body(chk):
                                               'clock{none,strict,ucln} x heights{ratio,shift} x coalescent{none,constant,skyride,skygrid} '
                                               '(960) + 12 with initial-value options + further documented options one at a time on a '
                                               'fixed model (sampler/optimiser options, clock prior, tip coding, initialisation, '
-                                              'integrated / non-centred / time-aware GMRF variants)')
+                                              'integrated / non-centred / time-aware GMRF variants) + every initial-value option (--root_height_init, --rate_init, --rate, '
+                                              '-f, --coalescent_init, --heights_init tree|regression, --rate_init regression, --brlens_init) pairwise with '
+                                              'every tree-prior family (skygrid, skyglide, piecewise-*, skyride, constant, exponential, birth-death) and both '
+                                              'node-height parameterisations, concrete only (quick: 10 of them)')
         chk.total.bounds['data'] = f'3 taxa {list(FASTA)} (dates from names), {len(next(iter(FASTA.values())))} sites, tree {NEWICK}'
         tasks = tasks_for(chk.tier, tmp)
         chk.total.bounds['configuration list'] = [f'{t[1]} {opts_str(t[2])}' + (' [executable vs in-process]' if t[0] == 'exe' else '')
@@ -1321,8 +1462,13 @@ def replay_file(path):
             print(('REPRODUCED ' if stage else 'NOT REPRODUCED ') + f'{stage}: {exc}: {msg}')
             return 1 if stage else 0
         if kind == 'initial':
-            print('replay:', r['what'])
-            return 1
+            from vlib.core import TaskResult
+
+            tr = TaskResult('replay')
+            check_initial_values(load_objects(js), [tuple(w) for w in rp.get('wants', [])], 'replay', tr, rp['sub'], groups, tmp)
+            hit = [v for v in tr.violations if v['signature'] == r['signature']]
+            print(('REPRODUCED ' + hit[0]['what']) if hit else 'NOT REPRODUCED')
+            return 1 if hit else 0
         if kind == 'raises':
             raised = replay_raises(js, plan, rp.get('values', {}))
             print(('REPRODUCED ' + ': '.join(raised)[:400]) if raised else 'NOT REPRODUCED')
